@@ -1,8 +1,10 @@
 """C41 — Macros run their latest definition once per call and never recurse (partial).
 
 Covered: (a) PInterpreter._register_macro: afterwards the table maps the name to the node just registered (latest definition wins);
-(b) MacroNode.macro_calling_macro: a DIRECT self call among ANY of the macro's children is always found (all macro tables, all
-child lists, recursion handled through the function's own contract), a non-empty result ends in the searched name;
+(b) MacroNode.macro_calling_macro: a self call ANYWHERE in the macro's body (the calls get_macro_calls returns) is always found (all
+macro tables, recursion handled through the function's own contract), a non-empty result ends in the searched name;
+(b') NodeWithChildren.get_macro_calls: closure obligations P1/P2 (every direct call child, and every call in the body of a non-macro
+container child, is in the result; recursion through its own contract, children loop unrolled for <= 3 children: bounded);
 (c) bounded native scenarios on the real parser + MacroNode: self call as second call, indirect self call through the second call,
 and termination when other macros call each other."""
 import z3
@@ -15,16 +17,96 @@ TYPES = {"self": "MacroNode", "macros": "dict[str, MacroNode]", "name": "str | N
          "NodeWithChildren.children": "list[Node]", "MacroNode.children": "list[Node]", "Node.arguments": "str", "result": "list[str]",
          "path": "list[str]"}
 N = "(name if name is not None else self.name)"
-DIRECT = f"any(is_instance(c, 'CallMacroNode') and c.name == {N} for c in self.children)"
+from pyvc.smt import Val, RID              # noqa: E402
+from pyvc import heapops as H              # noqa: E402
+INBODYf = z3.Function("IN_BODY", Val, Val, z3.BoolSort())   # IN_BODY(node, call): `call` is in node.get_macro_calls()
+
+
+CALLSf = z3.Function("CALLS_LIST", Val, Val)               # the list node.get_macro_calls() returns (deterministic over the tree)
+
+
+def calls_of(ctx, node_sv):
+    """spec function calls_of(node): the list of calls get_macro_calls returns for that node"""
+    from pyvc.repo import parse_ann
+    out = SV(CALLSf(node_sv.term), parse_ann("list[CallMacroNode]"))
+    st = ctx.st
+    st.assume(z3.And(Val.is_VRef(out.term), RID(out.term) >= 0, RID(out.term) < (ctx.fr.entry_alloc if ctx.fr.entry_alloc is not None else st.alloc),
+                     H.list_len(st, RID(out.term)) >= 0))
+    return out
+
+
+def _calls_list(ctx, node_sv, stash=None):
+    """node.get_macro_calls(): the list L = calls_of(node) with  IN_BODY(node, x) <=> x in L  (the function is deterministic over the
+    tree; what IN_BODY contains is fixed by the closure obligations proved on get_macro_calls itself)"""
+    st = ctx.st
+    out = calls_of(ctx, node_sv)
+    n = ctx.list_len(out)
+    k = z3.Int(st.fresh_name("k"))
+    x = z3.Const(st.fresh_name("x"), Val)
+    get = lambda i: H.list_get(st, RID(out.term), i)
+    ctx.assume(z3.ForAll([k], z3.Implies(z3.And(0 <= k, k < n), INBODYf(node_sv.term, get(k))), patterns=[get(k)]))
+    wit = z3.Function(st.fresh_name("pos_in_calls"), Val, z3.IntSort())
+    ctx.assume(z3.ForAll([x], z3.Implies(INBODYf(node_sv.term, x), z3.And(0 <= wit(x), wit(x) < n, get(wit(x)) == x)),
+                         patterns=[INBODYf(node_sv.term, x)]))
+    return out
+
+
+def calls_of_self(ctx, args, kwargs):
+    return _calls_list(ctx, ctx.local("self"))
+
+
+def calls_of_child(ctx, args, kwargs):
+    return _calls_list(ctx, ctx.ex.ev(ctx.node.func.value, ctx.fr))
+
+
+calls_of_self.modifies = []
+calls_of_child.modifies = []
+calls_of_self.__doc__ = calls_of_child.__doc__ = _calls_list.__doc__
+SELFCALL = f"any(is_instance(c, 'CallMacroNode') and c.name == {N} for c in calls_of(self))"
 mcm = Contract(
     target=A + "MacroNode.macro_calling_macro", types=TYPES, raises={}, requires=["self.children is not None"],
-    ensures=[("a-direct-self-call-among-any-child-is-found", f"implies({DIRECT}, {N} in result)"),
+    calls={"self.get_macro_calls": calls_of_self},
+    ensures=[("a-self-call-anywhere-in-the-body-is-found", f"implies({SELFCALL}, {N} in result)"),
              ("a-reported-path-ends-in-the-searched-name", f"implies(len(result) > 0, result[len(result) - 1] == {N})")],
-    loops={"for child in self.children": LoopSpec(
-        invariant=[f"all(not (is_instance(self.children[j], 'CallMacroNode') and self.children[j].name == {N}) for j in range(idx))",
+    loops={"for child in self.get_macro_calls()": LoopSpec(
+        invariant=[f"all(not (is_instance(calls_of(self)[j], 'CallMacroNode') and calls_of(self)[j].name == {N}) for j in range(idx))",
                    "visited is not None"],
         frame={"$dhas": ["visited"], "$dval": ["visited"], "$dcnt": ["visited"], "$dord": ["visited"], "$dpos": ["visited"], "$items": [], "$len": []})},
     modifies={"$dhas": ["_visited"], "$dval": ["_visited"], "$dcnt": ["_visited"], "$dord": ["_visited"], "$dpos": ["_visited"], "$items": [], "$len": []})
+
+# ---- the body's calls: NodeWithChildren.get_macro_calls (recursion through its own contract; children loop unrolled: BOUNDED) -------------
+GB = 3
+
+
+def gmc_exit(ctx, kind, result):
+    """closure obligations that fix what IN_BODY(self, .) must contain: (P1) every direct CallMacroNode child; (P2) everything in the
+    body of a direct child that has children and is not a macro definition. By induction over the tree these give: every call nested at
+    any depth (outside nested macro definitions) is in the result."""
+    if kind != "return":
+        return
+    st = ctx.st
+    n = ctx.list_len(result)
+    get = lambda i: H.list_get(st, RID(result.term), i)
+    for j in range(GB):
+        inb = ctx.spec_bool(f"{j} < len(self._children)")
+        child = ctx.spec(f"self._children[{j}]")
+        is_call = ctx.spec_bool(f"is_instance(self._children[{j}], 'CallMacroNode')")
+        is_cont = ctx.spec_bool(f"is_instance(self._children[{j}], 'NodeWithChildren') and not is_instance(self._children[{j}], 'MacroNode') "
+                                f"and not is_instance(self._children[{j}], 'CallMacroNode')")
+        k = z3.Int(st.fresh_name("k"))
+        ctx.check(f"P1:direct-call-child-{j}-is-in-the-result",
+                  z3.Implies(z3.And(inb, is_call), z3.Exists([k], z3.And(0 <= k, k < n, get(k) == child.term))), "postcondition")
+        x = z3.Const(st.fresh_name("x"), Val)
+        ctx.check(f"P2:every-call-in-the-body-of-container-child-{j}-is-in-the-result",
+                  z3.Implies(z3.And(inb, is_cont, INBODYf(child.term, x)), z3.Exists([k], z3.And(0 <= k, k < n, get(k) == x))), "postcondition")
+
+
+gmc = Contract(
+    target=A + "NodeWithChildren.get_macro_calls", raises={},
+    types={"self": "NodeWithChildren", "NodeWithChildren._children": "list[Node]", "calls": "list[CallMacroNode]", "child": "Node"},
+    requires=[f"len(self._children) <= {GB}"],
+    calls={"child.get_macro_calls": calls_of_child}, on_exit=gmc_exit,
+    loops={"for child in self._children": LoopSpec(unroll=GB)}, options={"default_unroll": GB})
 
 reg = Contract(
     target=P + "PInterpreter._register_macro", raises={},
@@ -82,7 +164,7 @@ def opaque_state(ctx, args, kwargs):
 
 for _h in (get_child, matches_source, parse_new, opaque_state):
     _h.modifies = []
-SPEC_FUNCS = {"GC": GC, "MS": MS}
+SPEC_FUNCS = {"GC": GC, "MS": MS, "calls_of": calls_of}
 MAC = "old_program.macros[key_at(old_program.macros, j)]"
 KEPT = (f"implies({MAC}.run_started_count > 0, GC(new_program, {MAC}.id) is not None and is_instance(GC(new_program, {MAC}.id), 'MacroNode') "
         f"and MS({MAC}, GC(new_program, {MAC}.id)))")
@@ -99,7 +181,7 @@ liveedit = Contract(
     loops={"for old_macro_node in old_program.macros.values()": LoopSpec(invariant=[f"all({KEPT} for j in range(idx))"], frame={}),
            "for new_line in new_method.lines": LoopSpec(invariant=[], frame={})})
 
-CONTRACTS = [mcm, reg, liveedit]
+CONTRACTS = [mcm, gmc, reg, liveedit]
 TARGETS = [c.key for c in CONTRACTS]
 LEVEL = "other"
 
@@ -112,15 +194,17 @@ def _mk(fn):
     return run
 
 
-NATIVE = [("native:self-call-as-second-call", _mk("scenario_self_call_as_second_call")),
+NATIVE = [("native:self-call-nested-in-block-watch-alarm", _mk("scenario_self_call_nested_in_block_watch_alarm")),
+          ("native:self-call-as-second-call", _mk("scenario_self_call_as_second_call")),
           ("native:cycle-among-other-macros-terminates", _mk("scenario_cycle_among_other_macros")),
           ("native:indirect-self-call-through-second-call", _mk("scenario_indirect_via_second_call")),
           ("native:live-edit-of-a-started-macro-is-rejected", _mk("scenario_edit_of_a_started_macro"))]
-BOUNDED = ["indirect self calls and termination on cyclic macro tables: three native scenarios on the real parser/MacroNode (no variant for the "
+BOUNDED = [f"get_macro_calls: the loop over the children is unrolled for at most {GB} children (nesting depth unbounded through the function's own contract)",
+           "indirect self calls and termination on cyclic macro tables: three native scenarios on the real parser/MacroNode (no variant for the "
            "recursion is proved: it needs a cardinality argument over the visited set that the solvers do not do)"]
 TRUSTED = ["Node.name is the stripped argument text (parser guarantee)", "annotations as type invariants"]
 CLAUSES = {"calling a macro runs the most recently defined body of that name": "_register_macro contract (proved); the call looks the name up in the same table (visit_CallMacroNode is a generator, not under contract)",
-           "a call that would make a macro call itself fails instead of recursing": "direct self call found among all children (proved); indirect / cyclic cases by native scenarios (bounded); the raise in visit_CallMacroNode is not under contract",
+           "a call that would make a macro call itself fails instead of recursing": "self call anywhere in the body found (macro_calling_macro proved against the list get_macro_calls returns; get_macro_calls closure obligations bounded to 3 children per node, any depth); indirect / cyclic cases by native scenarios (bounded); the raise in visit_CallMacroNode is not under contract",
            "a macro that has already started may not be edited or removed": "(d) _validate_liveedit_method: an edit is accepted only if every started macro still exists as a macro with matching source (loop invariant over all macros); get_child_by_id / matches_source assumed",
            "once per call, lines in order": "NOT covered"}
 EXPLANATION = "Partial claim: registration law and the direct-self-call lemma proved on the real functions; indirect and cyclic cases by bounded native scenarios."
